@@ -547,6 +547,10 @@ def check_refusal(sp, col, scratch):
     for i in sorted({-1, -held - 1, held, held + 1, declared, declared + 1} - set(range(held))):
         if not must_raise(f"get_theta({'neg' if i < 0 else 'past'})", lambda i=i: h.get_theta(i)):
             bad("get_theta|out-of-range", f"get_theta({i}) returned although only positions 0..{held - 1} hold a sample")
+    # positions that are no position at all, just outside the range: -0.5, held - 0.5, 0.99 * held (also as numpy scalars)
+    for x in (-0.5, held - 0.5, held - 0.01, np.float64(-0.25), np.float64(held - 0.5)):
+        if not must_raise("get_theta(fractional)", lambda x=x: h.get_theta(x)):
+            bad("get_theta|out-of-range", f"get_theta({x!r}) returned although only the integer positions 0..{held - 1} hold a sample")
     if held == 0:
         path = os.path.join(scratch, "empty.h5")
         if not must_raise("save-empty", lambda: h.save_h5(path)):
